@@ -349,9 +349,68 @@ fn run_chain(spec: &str, script: &str) -> Option<String> {
     }))
 }
 
+/// one unary stage (fields separated by `,`) applied to a source
+fn apply_stage(st: &[String], cur: Arc<Source<i64>>) -> Option<Arc<Source<i64>>> {
+    let num = |i: usize| -> i64 { st.get(i).and_then(|x| x.parse().ok()).unwrap_or(0) };
+    let (a, b) = (num(2), num(3));
+    Some(match (st.first()?.as_str(), st.get(1).map(|x| x.as_str())) {
+        ("map", Some("add")) => Arc::new(map(move |x: i64| x + a)(cur)),
+        ("map", Some("mul")) => Arc::new(map(move |x: i64| x * a)(cur)),
+        ("filter", _) => Arc::new(filter(move |x: &i64| x.rem_euclid(a) == b)(cur)),
+        ("scan", _) => Arc::new(scan(move |acc: i64, x: i64| (acc * a + x).rem_euclid(SCAN_MOD), b)(cur)),
+        ("skip", _) => Arc::new(skip(num(1) as usize)(cur)),
+        ("take", _) => Arc::new(take(num(1) as usize)(cur)),
+        _ => return None,
+    })
+}
+
+/// `at:<j>/<stage>/<n-ary>`: the unary stage applied to member `j` of `merge,N` / `concat,N` / `combine,N` (N = 2, 3 for combine)
+fn run_at(spec: &str, script: &str) -> Option<String> {
+    let parts: Vec<&str> = spec.split('/').collect();
+    if parts.len() != 3 {
+        return None;
+    }
+    let j: usize = parts[0].parse().ok()?;
+    let stage: Vec<String> = parts[1].split(',').map(|x| x.to_string()).collect();
+    let nary: Vec<&str> = parts[2].split(',').collect();
+    let n: usize = nary.get(1)?.parse().ok()?;
+    if j >= n || apply_stage(&stage, Arc::new((|_m: Message<Never, i64>| {}).into())).is_none() {
+        return None;
+    }
+    let member = move |w: &W<i64>, i: usize, stage: &Vec<String>| -> Arc<Source<i64>> {
+        let p = w.puppet(Some(i));
+        if i == j { apply_stage(stage, p).unwrap() } else { p }
+    };
+    match nary[0] {
+        "merge" | "concat" => {
+            let is_merge = nary[0] == "merge";
+            Some(run::<i64, i64>(script, fi, mki, 0, move |w| {
+                let ms: Box<[Arc<Source<i64>>]> = (0..n).map(|i| member(w, i, &stage)).collect::<Vec<_>>().into_boxed_slice();
+                subscribe_to(if is_merge { Arc::new(callbag::merge(ms)) } else { Arc::new(callbag::concat(ms)) })
+            }))
+        },
+        "combine" => {
+            let member2 = move |w: &Arc<World<i64, (i64, i64)>>, i: usize, stage: &Vec<String>| -> Arc<Source<i64>> {
+                let p = w.puppet(Some(i));
+                if i == j { apply_stage(stage, p).unwrap() } else { p }
+            };
+            match n {
+                2 => Some(run::<i64, (i64, i64)>(script, |t| format!("[{},{}]", t.0, t.1), mki, 0, move |w| {
+                    subscribe_to(Arc::new(combine!(member2(w, 0, &stage), member2(w, 1, &stage))))
+                })),
+                _ => None,
+            }
+        },
+        _ => None,
+    }
+}
+
 pub fn run_inst(inst: &str, script: &str) -> Option<String> {
     if let Some(spec) = inst.strip_prefix("chain:") {
         return run_chain(spec, script);
+    }
+    if let Some(spec) = inst.strip_prefix("at:") {
+        return run_at(spec, script);
     }
     let parts: Vec<&str> = inst.split(':').collect();
     let num = |i: usize| -> Option<i64> { parts.get(i)?.parse().ok() };
